@@ -41,7 +41,10 @@ var machineExprs = []string{"a = 'x'", "/l[k = current()/../x]/v", "string-lengt
 	// matters here is that every run of the machine gives the same answer)
 	"/l[k = /l3[j = current()/../x]/r]/v",
 	// a leafref is followed (two more kinds of data-tree callback that can fail)
-	"deref(current()/../r)/../v = 'x'"}
+	"deref(current()/../r)/../v = 'x'",
+	// two expressions without location paths: they can also be run through the other context
+	// constructor, NewCtxFromMach (operation runmach)
+	"concat('left-', 'hold') = 'left-hold'", "string-length('abcdef') * 2 + 1"}
 
 // customMachine is the index of the machine that calls a registered custom (plugin) function.
 const customMachine = 4
@@ -169,6 +172,9 @@ func performOn(o op, machines []*xpath.Machine) string {
 			return "error: " + err.Error()
 		}
 		return m.PrintMachine()
+	case "runmach":
+		obs := xpx.RunMachineFromMach(machines[o.Arg])
+		return obs.String() + " listing=" + machines[o.Arg].PrintMachine()
 	default:
 		t := mock.NewTree()
 		if o.Kind == "runfail" {
@@ -358,6 +364,16 @@ func run(c *engine.Ctx) {
 			scenarios = append(scenarios, scenario{Threads: [][]op{{{Kind: "run", Arg: m}}, {{Kind: "run", Arg: m, Ctx: 1}}, {{Kind: "run", Arg: (m + 1) % len(machineExprs)}}}, Tick: true, Bound: 1})
 		}
 	}
+	// contexts built by NewCtxFromMach (no data tree) next to each other and next to contexts built from
+	// a current node: every context has its own evaluation stack
+	pf := []int{len(machineExprs) - 2, len(machineExprs) - 1}
+	for _, a := range pf {
+		for _, b := range pf {
+			scenarios = append(scenarios, scenario{Threads: [][]op{{{Kind: "runmach", Arg: a}}, {{Kind: "runmach", Arg: b}}}, Tick: true, Bound: tb})
+			scenarios = append(scenarios, scenario{Threads: [][]op{{{Kind: "runmach", Arg: a}}, {{Kind: "run", Arg: b}}}, Tick: true, Bound: tb})
+		}
+		scenarios = append(scenarios, scenario{Threads: [][]op{{{Kind: "runmach", Arg: a}}, {{Kind: "runmach", Arg: pf[0]}}, {{Kind: "runmach", Arg: pf[1]}}}, Tick: true, Bound: 1})
+	}
 	c.Note(fmt.Sprintf("%d scenarios; instrumented mutable package variables: %v", len(scenarios), verifrt.StateVars()))
 	for si, sc := range scenarios {
 		if c.Expired() {
@@ -437,6 +453,7 @@ func historyAlphabet() []op {
 		a = append(a, op{Kind: "run", Arg: i}, op{Kind: "run", Arg: i, Ctx: 1})
 	}
 	a = append(a, op{Kind: "runfail", Arg: 0}, op{Kind: "runfail", Arg: 1}, op{Kind: "runfail", Arg: 3, Ctx: 1})
+	a = append(a, op{Kind: "runmach", Arg: len(machineExprs) - 2}, op{Kind: "runmach", Arg: len(machineExprs) - 1})
 	// runs that die at a later callback: between the predicates of a step, between an inner and an outer ']'
 	a = append(a, op{Kind: "runfail", Arg: 3, Fault: 2}, op{Kind: "runfail", Arg: 5, Fault: 1}, op{Kind: "runfail", Arg: 5, Fault: 2}, op{Kind: "runfail", Arg: 5, Fault: 3})
 	// runs with the context's debug listing on: a diagnostic aid that must leave the machine as it was
